@@ -621,6 +621,11 @@ class AttackGraph():
 
         self.nodes = []
         self.attackers = []
+        self._id_to_node = {}
+        self._full_name_to_node = {}
+        self._id_to_attacker = {}
+        self.next_node_id = 0
+        self.next_attacker_id = 0
         self._generate_graph()
 
     def add_node(
